@@ -30,18 +30,40 @@ for i, l in enumerate(lines):
         sites.append((i, m.group(1), impl, m.group(2)))
 pairs = [(a, b) for a, b in zip(sites, sites[1:]) if a[1] == b[1] and a[2] == b[2] and a[3] != b[3]]
 random.Random(seed).shuffle(pairs)
+# second operator (argv[3] == "drop"): one child element is no longer handed to the writer (`tgroup.push(...)` removed)
+drops = []
+impl = None
+for i, l in enumerate(lines):
+    m = re.match(r"^impl (\w+) \{", l)
+    if m: impl = m.group(1)
+    if re.match(r"^\s+tgroup\.push\(writer::TaggedItemInfo::Tag \{$", l):
+        j = i
+        while not re.match(r"^\s+\}\);$", lines[j]): j += 1
+        tag = re.search(r'tag: "(\w+)"', lines[i + 1])
+        drops.append((i, j, impl, tag.group(1) if tag else "?"))
+random.Random(seed).shuffle(drops)
+mode = sys.argv[3] if len(sys.argv) > 3 else "swap"
 try:
     print(f"{len(sites)} call sites, {len(pairs)} swappable pairs; base build ...", flush=True)
     r = sh("cargo build --release --offline", cwd=f"{W}/verif/sim")
     done = caught = 0
-    for (a, b) in pairs:
+    work = pairs if mode == "swap" else drops
+    if mode != "swap":
+        print(f"{len(drops)} child elements handed to the writer", flush=True)
+    for item in work:
         if done >= n: break
         mut = list(lines)
-        mut[a[0]] = lines[a[0]].replace(a[3] + ",", b[3] + ",", 1)
-        mut[b[0]] = lines[b[0]].replace(b[3] + ",", a[3] + ",", 1)
+        if mode == "swap":
+            a, b = item
+            mut[a[0]] = lines[a[0]].replace(a[3] + ",", b[3] + ",", 1)
+            mut[b[0]] = lines[b[0]].replace(b[3] + ",", a[3] + ",", 1)
+            desc = f"{a[2]}: {a[3]} <-> {b[3]} ({a[1]})"
+        else:
+            i, j, im, tag = item
+            for k in range(i, j + 1): mut[k] = "// " + lines[k]
+            desc = f"{im}: child {tag} not written"
         open(spec, "w").write("\n".join(mut))
         r = sh("cargo build --release --offline", cwd=f"{W}/verif/sim")
-        desc = f"{a[2]}: {a[3]} <-> {b[3]} ({a[1]})"
         if r.returncode != 0:
             print(f"not viable (does not compile): {desc}", flush=True)
             continue
